@@ -62,9 +62,9 @@ def _mut_distribution(pid, tier):
     return d
 
 # public types with to_bytes/from_bytes that have no schema (not covered by either stream)
-UNMODELLED = ["FixedTransaction", "FixedBlock", "FixedVersionedBlock", "FixedTransactionBody", "FixedTransactionBodies", "FixedTxWitnessesSet"
-              " (original-bytes carriers: see C04)",
-              "Address / ByronAddress / Pointer (own byte format: see C11)", "hash, key and signature types (raw bytes: see C12)"]
+UNMODELLED = ["FixedTxWitnessesSet, FixedTransactionBody, FixedTransactionBodies, FixedBlock, FixedVersionedBlock (original-bytes carriers: C04)",
+              "Address / ByronAddress / Pointer (own byte format: C11; inside structures: byte-string carriers)",
+              "hash, key and signature types (raw fixed-length bytes: C12; inside structures: fixed-size byte strings)"]
 
 def _custom(pid, cfg, tier, seed):
     import verif_lib
@@ -103,13 +103,17 @@ CFG = {
                   "(every presence subset, each optional collection absent / Some(empty) / non-empty, repeated and unsorted inserts, duplicate adds, "
                   "every new_* constructor), the library must decode its own bytes to an equal value and re-encode identically, and the model "
                   "decoder must accept exactly these bytes and re-encode them identically. Third stream, histories: decode (from every wire form) -> one setter / add / insert "
-                  "-> encode -> decode, compared field by field through the public accessors and against the model.",
+                  "-> encode -> decode, compared field by field through the public accessors and against the model. Decoding direction: sdec = the "
+                  "wire-shape decoder followed by what the library does with container entries (sets drop repeats, BTreeMap maps sort and reject a "
+                  "repeated key, LinkedHashMap maps reject it, Vec maps keep everything); C01_dec_sound: whatever sdec returns for ANY schema and input is in "
+                  "the domain of the round-trip theorem, hence decode-encode-decode is the identity on decoded values; the library's own bytes are fed to sdec "
+                  "on every run, and a fourth stream gives both sides encodings with repeated set items and unsorted / repeated map keys.",
     "level_note": "Trusted: Coq kernel; the schemas in Ledger/Schemas.v as a description of the Rust types (tied by correspondence on the "
                   "generated cases only); the model decoder is the Rust decoder restricted to writer-produced encodings (any head width, "
-                  "writer key order, definite containers except Plutus lists/long byte strings); extraction (ExtrOcamlBasic) and the OCaml/Rust glue. "
+                  "writer key order, definite containers except Plutus lists/long byte strings; sdec is stricter than the library on repeated metadata-map keys and repeated witness-set scripts, see notes/design/C01.md); extraction (ExtrOcamlBasic) and the OCaml/Rust glue. "
                   "No axioms. Types without a schema (coverage.unmodelled_types in the evidence) are not covered; wasm JsError paths are not exercised.",
     "theorems": ["C01_schema_roundtrip", "C01_roundtrip", "C01_reencode", "C01_api_roundtrip", "C01_api_reencode",
-                 "C01_norm_only_empties", "C01_hex", "C01_loop_fuel"],
+                 "C01_norm_only_empties", "C01_dec_sound", "C01_decode_encode_idempotent", "C01_sdec_roundtrip", "C01_hex", "C01_loop_fuel"],
     "allowed_axioms": [],
     "compare": "exact",
     "nontrivial": _nontrivial,
@@ -129,6 +133,8 @@ CFG = {
             "setter / add / insert (35 types, 129 operations: set to another value, absent to present, present to empty, fresh and existing keys / items), "
             "encoded, decoded again and compared field by field through the accessors, each rendered by its own stand-alone serialisation; the model "
             "must accept the new bytes and find the setter's argument under the field's key (api_model_field); distribution in coverage.mutation_stream_distribution; "
+            "stream (iv): case `rs <Type> <hex>` - a domain value de-canonicalised by the model side (set items repeated, sorted maps reversed / rotated, "
+            "repeated keys) is decoded by the library and by sdec: same accept / reject, same re-encoding; "
             "non-trivial = distinct accepted encodings of >= 8 bytes",
     "trusted_base": [
         "Ledger/Schemas.v: wire shapes read from rust/src/serialization (model, not spec)",
